@@ -600,3 +600,34 @@ theorem exactMatchNaive_complete (cfg : Cfg) (hs : RealScheme cfg) (hnorm : ∀ 
       refine hc.covered hb (if fwd then s else t.size - s - p.size) ?_ ?_ hscan
       · cases fwd <;> simp <;> omega
       · cases fwd <;> simp <;> omega
+
+/-- ExactMatchNaive scores the occurrence it reports with the documented occurrence score. -/
+theorem exactMatchNaive_score (cfg : Cfg) (cs norm fwd : Bool) (t : Text) (isBytes : Bool) (p : Text)
+    (hm : 0 < p.size) (r : Res) (hr : exactMatchNaive cfg cs norm fwd false t isBytes p = .ok r) (hs : 0 ≤ r.start) :
+    r.score = occScore cfg t r.start.toNat p.size := by
+  unfold exactMatchNaive at hr
+  have h0 : ¬ (p.size == 0) = true := by
+    have : p.size ≠ 0 := by omega
+    simpa using this
+  rw [if_neg h0] at hr
+  by_cases h1 : t.size < p.size
+  · rw [if_pos h1] at hr; injection hr with hr; subst hr; simp [Res.none] at hs
+  · rw [if_neg h1] at hr
+    by_cases h2 : (asciiFuzzyIndex t isBytes p cs).isNone = true
+    · rw [if_pos h2] at hr; injection hr with hr; subst hr; simp [Res.none] at hs
+    · rw [if_neg h2] at hr
+      obtain ⟨st, hl, hinv⟩ := exLoop_inv cfg cs norm fwd false t p (t.size * (p.size + 1) + 1) {} (exInv_init cfg cs norm fwd t p hm)
+      simp only [hl, bind, Except.bind] at hr
+      unfold exFinish at hr
+      cases hb : st.bestPos with
+      | none => rw [hb] at hr; injection hr with hr; subst hr; simp [Res.none] at hs
+      | some b =>
+        rw [hb] at hr
+        obtain ⟨g1, g2, g3⟩ := hinv.best b hb
+        obtain ⟨r1, r2, r3⟩ := exRange_occ cfg cs norm fwd t p b g1 g2 g3
+        simp only [Bool.false_eq_true, if_false] at hr
+        have hcs := calculateScore_occ cfg cs norm t p (exRange fwd t.size p.size b).1 (by omega) r3
+        rw [← r1] at hcs
+        simp only [hcs, bind, Except.bind] at hr
+        injection hr with hr; subst hr
+        simp
